@@ -499,12 +499,14 @@ func TestArgumentTables(t *testing.T) {
 			}
 		}
 	}
-	cuts := []string{"", " ", "ab", "\t\n ", "é", "ba", "a-c", "]", "abcdefghijklmnopqrstuvwxyz"}
+	cuts := []string{"", " ", "ab", "\t\n ", "é", "ba", "a-c", "]", "abcdefghijklmnopqrstuvwxyz", "\U0001F600", "é\u4e2d", "\u00a9x"}
 	tsubj := []any{"  ab hello ba  ", "", "aaa", "\tx\n", "ééxé", "-a-", int64(101), 1.5, true,
 		// every white space character beyond ASCII at the ends (an empty cut set removes all white space), also shielding ASCII
 		// blanks behind it; and format characters that are not white space (they stay)
 		"\u00a0x\u00a0", "\u3000 x \u3000", " \u2028x\u2029 ", "\u0085x\u0085", "\u1680x\u2000\u2001\u2002\u2003\u2004\u2005\u2006\u2007\u2008\u2009\u200a", "\u202fx\u205f", "\v\fx\r\n",
-		" \u200bx\u200b ", "\ufeff x \ufeff", "\u00a0", "x\u3000y"}
+		" \u200bx\u200b ", "\ufeff x \ufeff", "\u00a0", "x\u3000y",
+		// edge characters that share their first or last byte with a character of a cut set without being in it
+		"èabc", "abc©", "abcĩ", "\U0001F601x", "x\U0001F640", "\u4e2dx\u4e01", "\u6587\u4e2d", "éèé", "\xc3abc\xa9", "©é©"}
 	for ci, cs := range cuts {
 		for si, subj := range tsubj {
 			for side := 0; side < 2; side++ {
